@@ -123,7 +123,7 @@ class Bridge(object):
             if not all(arr.dim_conc(d) for d in v.shape):
                 raise _Skip('symbolic shape reaches native call')
             data = v.tolist() if v.ndim else v.get()
-            dt = {'real': float, 'int': int, 'bool': bool}.get(v.dtype, float)
+            dt = {'real': float, 'int': int, 'bool': bool, 'str': str}.get(v.dtype, float)
             a = np.array(_map_leaves(data, lambda x: _leaf(x)), dtype=dt)
             if v.ndim and a.shape != tuple(v.shape):
                 a = a.reshape(tuple(v.shape))
@@ -272,7 +272,7 @@ def _map_leaves(d, f):
 
 def nd_to_arr(n):
     import numpy as np
-    dt = 'bool' if n.dtype == bool else ('int' if np.issubdtype(n.dtype, np.integer) else 'real')
+    dt = 'bool' if n.dtype == bool else ('int' if np.issubdtype(n.dtype, np.integer) else ('str' if n.dtype.kind in 'US' else 'real'))
     if n.dtype == object:
         raise _Skip('object ndarray')
     data = n.tolist()
@@ -328,7 +328,9 @@ def native_call(interp, f, args, kwargs):
         br.sync_back()
         tb = traceback.extract_tb(e.__traceback__)
         where = '%s:%d' % (os.path.relpath(tb[-1].filename, interp.repo), tb[-1].lineno) if tb else ''
-        raise PyRaise(type(e).__name__, str(e), where)
+        ex = PyRaise(type(e).__name__, str(e), where)
+        ex.native = True
+        raise ex
     br.sync_back()
     return br.engine(res)
 
@@ -388,7 +390,10 @@ def replay_obligation(reg, mod, rec):
         try:
             c.fn(ctx, it, cfg)
         except PyRaise as e:
-            ctx.results.append(('no-exception', 'crash-freedom', False, '%s: %s %s' % (e.etype, e.msg, e.where)))
+            if getattr(e, 'native', False):
+                ctx.results.append(('no-exception', 'crash-freedom', False, '%s: %s %s' % (e.etype, e.msg, e.where)))
+            else:
+                detail = 'replay stopped: exception in interpreted (non-target) code, not in the real target: %s: %s %s' % (e.etype, e.msg, e.where)
         except (_Skip, PathEnd, Infeasible) as e:
             detail = 'replay stopped: %s' % e
         except Unsupported as e:
